@@ -6,7 +6,7 @@ from harness import dtwgen
 COQ_FILES = ["theories/BandTie.v", "gen/Gen_cmem.v", "theories/Mem.v", "theories/CBand.v", "gen/Gen_cwps.v", "theories/CWps.v", "gen/Gen_cfill.v", "theories/CFill.v",
              "gen/Gen_cexpand.v", "theories/CExpand.v", "gen/Gen_cloc.v", "theories/CLoc.v",
              "gen/Gen_cdist.v", "theories/CDistCanon.v", "theories/CDistTie.v", "theories/CDistProofs.v", "theories/CDistSpec.v",
-             "gen/Gen_cwpsk.v", "theories/CWpsCanon.v", "theories/CWpsKernel.v", "theories/CWpsTie.v", "theories/CWpsCanonEu.v", "theories/CWpsValue.v", "theories/CWpsSpec.v", "theories/CWpsTieEu.v", "theories/CWpsSpecEu.v", "theories/CWpsFinal.v", "props/C08.v"]
+             "gen/Gen_cwpsk.v", "gen/Gen_cexpw.v", "theories/CWpsCanon.v", "theories/CWpsKernel.v", "theories/CWpsTie.v", "theories/CWpsCanonEu.v", "theories/CWpsValue.v", "theories/CWpsSpec.v", "theories/CWpsTieEu.v", "theories/CWpsSpecEu.v", "theories/CExpW.v", "theories/CWpsFinal.v", "props/C08.v"]
 THEOREMS = [("DVProps.C08", "C08_psi_prologue_in_allocation"), ("DVProps.C08", "C08_psi_scan_in_row"),
             ("DVProps.C08", "C08_band_write_in_buffer"), ("DVProps.C08", "C08_c_row_loop_accesses_in_buffer"),
             ("DVProps.C08", "C08_compact_slot_in_row"), ("DVProps.C08", "C08_compact_shift_steps"),
@@ -15,7 +15,8 @@ THEOREMS = [("DVProps.C08", "C08_psi_prologue_in_allocation"), ("DVProps.C08", "
             ("DVProps.C08", "C08_expand_write_index_in_block"), ("DVProps.C08", "C08_wps_loc_returns_the_layout_slot"),
             ("DVProps.C08", "C08_c_dtw_distance_accesses_in_bounds"), ("DVProps.C08", "C08_c_dtw_distance_euclidean_accesses_in_bounds"),
             ("DVProps.C08", "C08_c_dtw_distance_ndim_accesses_in_bounds"), ("DVProps.C08", "C08_c_dtw_distance_ndim_euclidean_accesses_in_bounds"),
-            ("DVProps.C08", "C08_c_wps_kernel_accesses_in_bounds")]
+            ("DVProps.C08", "C08_c_wps_kernel_accesses_in_bounds"),
+            ("DVProps.C08", "C08_c_expand_accesses_in_bounds")]
 TRUSTED_BASE = [
     "Coq 8.16.1 kernel",
     "tools/translate_c.py: buffer length, allocation size, psi prologue bound and psi scan bounds of the four "
@@ -26,8 +27,9 @@ TRUSTED_BASE = [
     "of the index arithmetic is not modelled)",
     "tools/cfun.py: dtw_warping_paths_ndim regenerated WHOLE the same way (Gen_cwpsk.v); "
     "C08_c_wps_kernel_accesses_in_bounds: run without a bound on any buffer of (l1+1)*width cells the flag is true "
-    "and the buffer keeps its size (the bounded run and the Euclidean twin: correspondence + sanitizer runs)",
-    "partial: for the other routines only index arithmetic is proved; the expansion of the compact layout, "
+    "and the buffer keeps its size (the bounded run and the Euclidean twin: correspondence + sanitizer runs); "
+    "C08_c_expand_accesses_in_bounds: the same for dtw_expand_wps_slice regenerated whole (Gen_cexpw.v), every slice",
+    "partial: for the other routines only index arithmetic is proved; the affinity expansion, "
     "best_path, distance matrices, DBA and the Cython glue are covered by the AddressSanitizer+UBSan runs only "
     "(clang 14, exact-size malloc'ed caller buffers, PYTHONMALLOC=malloc so that every buffer has red zones)",
 ]
